@@ -241,3 +241,6 @@ def replay(ctx, path):
         return 1
     print("not reproduced")
     return 0
+
+
+RULE = RULE + (" In the thorough tier, and in the quick tier whenever the source differs from the validated baseline, a LONG-PASS stream is added (passes of 1300 .. 12000 lines, just beyond multiples of 256 .. 8192, with the property-relevant event placed at and after such multiples; DESIGN 10.4 round 13).")
